@@ -83,8 +83,8 @@ def rfd_tokens(rf):
 
 
 def rule_tokens(r):
-    comp = r.nature is RuleNature.COMPRESSION
-    t = ['R', raw(r.id), 'C' if comp else 'N', str(len(r.field_descriptors) if comp else 0)]
+    comp = r.nature is not RuleNature.NO_COMPRESSION
+    t = ['R', raw(r.id), {RuleNature.COMPRESSION: 'C', RuleNature.NO_COMPRESSION: 'N', RuleNature.FRAGMENTATION: 'F'}[r.nature], str(len(r.field_descriptors) if comp else 0)]
     if comp:
         for rf in r.field_descriptors:
             t += rfd_tokens(rf)
@@ -181,6 +181,12 @@ def run(rep, tier, seed):
                 rf = rnd.choice(r.field_descriptors)
                 add(b, RuleFieldDescriptor, rf, 'rule-field-descriptor:%s/%s' % (MOC[MO(rf.matching_operator)], CDAC[CDA(rf.compression_decompression_action)]), 'J rfd ' + ' '.join(rfd_tokens(rf)))
             add(b, RuleDescriptor, r, 'rule:' + ('compression' if r.nature is RuleNature.COMPRESSION else 'no-compression'), 'J rule ' + ' '.join(rule_tokens(r)))
+        if i % 10 == 3:
+            # a rule of fragmentation nature has no JSON form in this library (NotImplementedError, both ways): correspondence only
+            fr = RuleDescriptor(id=mk(randbits(rnd, rnd.randint(1, 9)), rnd.choice([L, R])), nature=RuleNature.FRAGMENTATION,
+                                field_descriptors=(rules[0].field_descriptors if rnd.random() < 0.5 and rules[0].nature is RuleNature.COMPRESSION else []))
+            o_ = impl_outcome(lambda: canon_json(fr.__json__()))
+            b.add('json:rule:fragmentation', 'J rule ' + ' '.join(rule_tokens(fr)), (o_[0], o_[1]) if o_[0] == 'EXC' else ('OK', (o_[1], True, True)), parse_model, None, dict(layer='json', op='rule:fragmentation'), key=('frag', i))
         # a match mapping under another action than mapping-sent (its type must come from the JSON value, not from the action)
         f = rnd.choice(pd.fields)
         odd = gen_rfd(rnd, f, 'map')
